@@ -197,10 +197,12 @@ fn build_options(choice: &[usize], evm: usize, dir: &Path) -> (AddNodeServiceOpt
     want("first", format!("first: {},", c("first") == 1));
     want("local", format!("local: {},", c("local") == 1));
     for i in 0..c("peers") {
-        want("peers", peer_addr(i as u8 + 1).to_string());
+        // each address as a list element of its own
+        want("peers", format!("{},\n", peer_addr(i as u8 + 1)));
     }
     for i in 0..c("contacts") {
-        want("contacts", format!("http://contacts{i}.example/net"));
+        // each URL as a list element of its own (quoted, followed by the element separator)
+        want("contacts", format!("\"http://contacts{i}.example/net\","));
     }
     want("testnet", format!("disable_mainnet_contacts: {},", c("testnet") == 1));
     want("ignore_cache", format!("ignore_cache: {},", c("ignore_cache") == 1));
